@@ -283,7 +283,11 @@ pub fn install_panic_trap() {
         for line in bt.lines() {
             let t = line.trim_start();
             if let Some(rest) = t.strip_prefix("at ") {
-                if let Some(rel) = rest.strip_prefix("/repo/") {
+                // a source file of the code under test: .../file-formats/<family>/<crate>/src/..., .../ffi/storm-ffi/src/...,
+                // .../warcraft-rs/src/... (wherever the tree is checked out)
+                let in_tree = ["/file-formats/", "/ffi/storm-ffi/", "/warcraft-rs/src/"].iter().filter_map(|m| rest.find(m)).min();
+                if let Some(pos) = in_tree.filter(|_| !rest.contains("/registry/src/") && !rest.starts_with("/rustc/")) {
+                    let rel = &rest[pos + 1..];
                     let file = rel.split(':').next().unwrap_or(rel);
                     let short = file.rsplit("/src/").next().unwrap_or(file);
                     let krate = file.split("/src/").next().unwrap_or("").rsplit('/').next().unwrap_or("");
